@@ -37,9 +37,17 @@ MANIFEST = dict(
                 "every flag propagated - Quiet, proved equivalent to the executable test quietB) every open endpoint has "
                 "received exactly what the tunnel read from its peer, every closed endpoint's close has reached the other "
                 "endpoint's socket, and if both closed both handlers are completely shut and unregistered, i.e. the id is free "
-                "(C02_quiet_complete). "
+                "(C02_quiet_complete); and no wake-up is lost at the level of one handler: what it registers for with the "
+                "select loop (wants = Proxy.pre_select, compared with the real pre_select on every replayed step) is exactly what "
+                "its callback then does - asked-for tunnel writability puts at least one more frame on the tunnel "
+                "(C02_wakeup_send), asked-for readability with bytes or a close pending consumes a byte or records the "
+                "end-of-stream (C02_wakeup_read), asked-for socket writability delivers a byte or, the socket being shut, drops "
+                "the buffer so that the handler stops asking (C02_wakeup_deliver), and a handler that registers for nothing is "
+                "not connecting, holds nothing for its socket and has stopped reading or waits for a paused tunnel "
+                "(C02_nothing_wanted_nothing_possible). "
                 "The model is replayed against the real classes on every run with close-order scenarios; teardown within "
-                "bounded work and absence of stuck states are checked on the real code by the fair-drain oracle."),
+                "bounded work and absence of stuck states are checked on the real code by the real-loop drain oracle (real ssnet.runonce "
+                "passes with the environment's actual readiness)."),
     level_note=("Trusted: as C01. Liveness (teardown within bounded work, no stuck state under a fair schedule) is decided on the "
                 "real code by the fair-drain oracle for the generated schedules, not by a theorem; that the real loop's quiescent "
                 "states satisfy Quiet is checked on every run (on the real objects and on the model state), not proved."),
